@@ -287,6 +287,9 @@ class Machine:
             return F(T("in", k), size * 8)
         ent = m.get(p.off)
         if ent is None:
+            for (a, b) in self.zero.get(p.obj, []):
+                if a <= p.off and p.off + size <= b and not any(a2 < p.off + size and a2 + e2[1] > p.off for a2, e2 in m.items()):
+                    return I(0, size * 8)
             if p.obj.startswith("g:"):
                 raise NotEncoded("load from constant global at unknown offset")
             return POISON
@@ -561,16 +564,27 @@ class Machine:
             if len(results) >= self.max_paths:
                 raise PathLimit(f"more than {self.max_paths} paths")
             self.decisions, self.dpos, self.pathcond = list(prefix), 0, []
-            self.mem, self.nobj, self.steps, self.max_in = {"in": {}, "out": {}}, 0, 0, -1
+            self.mem, self.nobj, self.steps, self.max_in, self.zero = {"in": {}, "out": {}}, 0, 0, -1, {}
             f = self.func(fname)
             if f is None:
                 raise NotEncoded("kernel not found in IR: " + fname)
             self.call(f, [P("in", 0), P("out", 0)])
             outs = {}
+            es = self.in_elem
+            for (a, b) in self.zero.get("out", []):
+                for off in range(a - a % es, b, es):
+                    if a <= off and off + es <= b:
+                        outs[off // es] = ZERO
             for off, (val, size) in self.mem["out"].items():
-                if off % size:
-                    raise NotEncoded("unaligned output store")
-                outs[off // size] = val.t if isinstance(val, F) else (val.t if isinstance(val, SI) and val.kind == "bits" else val)
+                if off % size or size != es:
+                    raise NotEncoded(f"output store of size {size} at offset {off}")
+                if isinstance(val, I):
+                    val = F(const_term(int_bits_to_float(val.v, size * 8)), size * 8)
+                if isinstance(val, SI) and val.kind == "bits":
+                    val = F(val.t, size * 8)
+                if not isinstance(val, F):
+                    raise NotEncoded(f"output lane {off // size} is not a float term: {val!r}")
+                outs[off // size] = val.t
             results.append((list(self.pathcond), outs))
             for k in range(len(prefix), len(self.decisions)):
                 stack.append(self.decisions[:k] + [not self.decisions[k]])
@@ -1045,9 +1059,7 @@ class Machine:
             for o in list(m):
                 if d.off <= o < d.off + n.v:
                     del m[o]
-            step = 4
-            for o in range(d.off, d.off + n.v, step):
-                m[o] = (I(0, 32), 4)
+            self.zero.setdefault(d.obj, []).append((d.off, d.off + n.v))
             return None
         if n1 == "x86":
             return self.x86(name, vals, aty)
@@ -1110,6 +1122,10 @@ class Machine:
         for o in list(dm):
             if d.off <= o < d.off + n:
                 del dm[o]
+        for (a, b) in self.zero.get(s.obj, []):
+            lo, hi = max(a, s.off), min(b, s.off + n)
+            if lo < hi:
+                self.zero.setdefault(d.obj, []).append((d.off + lo - s.off, d.off + hi - s.off))
         for o, (v, sz) in list(sm.items()):
             if s.off <= o and o + sz <= s.off + n:
                 self.store_lane(P(d.obj, d.off + (o - s.off)), v, sz)
